@@ -518,7 +518,7 @@ def real_cases(spec, acc):
 
 
 def plan(tier, seed):
-    n = 10000 if tier == 'quick' else 300000
+    n = 10000 if tier == 'quick' else 150000
     specs = [{'mode': 'virtual', 'n': b - a, 'shard': i, 'seed': seed, 'tier': tier}
              for i, (a, b) in enumerate(split_range(n, 12))]
     specs.append({'mode': 'waitnoecho', 'seed': seed, 'tier': tier})
